@@ -64,7 +64,7 @@ class Check(BaseCheck):
                 specs.append({'campaign': 'pairs', 'pool': 50, 'seed': seed, 'i': i, 'triples': 6000})
         else:
             for i in range(64):
-                specs.append({'campaign': 'pairs', 'pool': 60, 'seed': seed, 'i': i, 'triples': 30000})
+                specs.append({'campaign': 'pairs', 'pool': 110, 'seed': seed, 'i': i, 'triples': 200000})
         return specs
 
     def run(self, spec, rec):
